@@ -407,6 +407,10 @@ class MetadorGroup(MetadorNode):
     def __iter__(self):
         return iter(self.keys())
 
+    def __reversed__(self):
+        # (would be forwarded to the raw group otherwise and list internal nodes)
+        return reversed(list(self.keys()))
+
     def __len__(self):
         return len(list(self.keys()))
 
